@@ -4,6 +4,25 @@
 use std::sync::atomic::{AtomicBool, AtomicU64, Ordering};
 use std::sync::Mutex;
 
+/// Runs `f` on a fresh OS thread and returns its result. Every simulated run
+/// gets its own thread so that thread-local state inside the code under test
+/// (caches, scratch buffers) cannot leak from one run into the next: a run
+/// stays a pure function of its (workload, fault plan), and replays in a fresh
+/// process reproduce.
+pub fn isolated<R: Send>(f: impl FnOnce() -> R + Send) -> R {
+    if std::env::var_os("VERIF_NO_ISOLATE").is_some() {
+        return f(); // measurement aid only
+    }
+    std::thread::scope(|s| {
+        std::thread::Builder::new()
+            .stack_size(8 << 20)
+            .spawn_scoped(s, f)
+            .expect("spawn run thread")
+            .join()
+            .unwrap_or_else(|p| std::panic::resume_unwind(p))
+    })
+}
+
 pub fn workers() -> usize {
     if let Ok(v) = std::env::var("VERIF_WORKERS") {
         if let Ok(n) = v.parse::<usize>() {
